@@ -10,7 +10,10 @@ INT_TYPES = [("int", 256, False)] * 6 + [("int", 256, True)] * 3 + [("int", 128,
 ARITH = ["Add"] * 4 + ["Sub"] * 3 + ["Mul"] * 3 + ["Div"] * 2 + ["Mod"] * 2 + ["BAnd", "BOr", "BXor"]
 CMPS = ["Lt", "Le", "Gt", "Ge", "Eq", "Ne"]
 
-ALL_FEATURES = {"probes", "maps", "reasons", "bytes", "convert", "ifexp", "minmax", "bitops", "internal", "loops", "arrays", "dynarrays", "structs",
+BL = ("bytes", "string")
+PRINTABLE = b"abcdefghijklmnopqrstuvwxyzABCDEFGHIJKLMNOPQRSTUVWXYZ0123456789 _-+*/.,:;!?()[]{}<>=#@%&^~|"
+
+ALL_FEATURES = {"probes", "maps", "reasons", "bytes", "strings", "convert", "ifexp", "minmax", "bitops", "internal", "loops", "arrays", "dynarrays", "structs",
                 "transient", "sender", "value", "fordyn", "forin"}
 
 
@@ -65,8 +68,8 @@ class Gen:
         return min(max(v, lo), hi)
 
     def lit(self, t, nonzero=False):
-        if t[0] == "bytes":
-            return self.bytes_lit(t[1])
+        if t[0] in BL:
+            return self.bytes_lit(t[1], t[0])
         if t[0] in ("sarr", "darr", "struct"):
             return self.composite_lit(t)
         v = self.lit_val(t)
@@ -351,24 +354,31 @@ class Gen:
             return self.sub_access(cx, scope, t, d)
         raise ValueError(k)
 
-    def bytes_lit(self, n):
+    def rand_bytes(self, ln, kind):
         r = self.r
+        if kind == "string":
+            return bytes(r.choice(PRINTABLE) for _ in range(ln))
+        return bytes(r.randrange(256) for _ in range(ln))
+
+    def bytes_lit(self, n, kind=None):
+        r = self.r
+        kind = kind or self.bkind
         n = min(n, 72)
         ln = r.choice([0, 1, 1, 2, 3, 5, 31, 32, 33, n, n]) if n > 0 else 0
         ln = min(ln, n)
-        return E("const", ("bytes", ln), v=bytes(r.randrange(256) for _ in range(ln)))
+        return E("const", (kind, ln), v=self.rand_bytes(ln, kind))
 
     def bytes_leaves(self, cx, scope, n):
         """readable Bytes places whose bound fits into n"""
         out = []
         for (name, vid, vt, _m) in scope:
-            if vt[0] == "bytes" and vt[1] <= n:
+            if vt[0] == self.bkind and vt[1] <= n:
                 out.append(E("var", vt, name=name, id=vid))
         for i, (name, vt) in enumerate(self.prog.sto):
-            if vt[0] == "bytes" and vt[1] <= n:
+            if vt[0] == self.bkind and vt[1] <= n:
                 out.append(E("self", vt, name=name, id=i))
         for i, (name, vt) in enumerate(self.prog.tra):
-            if vt[0] == "bytes" and vt[1] <= n:
+            if vt[0] == self.bkind and vt[1] <= n:
                 out.append(E("tra", vt, name=name, id=i))
         return out
 
@@ -383,7 +393,7 @@ class Gen:
         if d > 0 and anyleaves and n >= 1:
             opts += ["slice"] * 2
         fs = [i for i, f in enumerate(self.prog.ints) if (cx.external or i < cx.fidx) and f.ret is not None
-              and f.ret[0] == "bytes" and f.ret[1] <= n and not (cx.iter_locked & self.writes.get(i, set()))]
+              and f.ret[0] == self.bkind and f.ret[1] <= n and not (cx.iter_locked & self.writes.get(i, set()))]
         if fs and "internal" in self.feat:
             opts += ["call"] * 2
         if not opts:
@@ -407,7 +417,7 @@ class Gen:
                 b = self.bytes_expr(cx, scope, n - a.ty[1], d - 1)
             if r.random() < 0.4:
                 a, b = b, a
-            return E("concat", ("bytes", a.ty[1] + b.ty[1]), a=a, b=b)
+            return E("concat", (self.bkind, a.ty[1] + b.ty[1]), a=a, b=b)
         # slice
         x = r.choice(anyleaves)
         m = x.ty[1]
@@ -423,18 +433,18 @@ class Gen:
                     start = E("bin", U256, op="Mod", a=start, b=E("const", U256, v=m - ln + 1))
                 elif start.is_lit():
                     start = E("const", U256, v=r.randrange(0, m - ln + 1))
-            return E("slice", ("bytes", ln), a=x, start=start, ln=E("const", U256, v=ln))
+            return E("slice", (self.bkind, ln), a=x, start=start, ln=E("const", U256, v=ln))
         # non-literal length: the result type is the source bound
         ln = self.nonlit(cx, scope, U256, 1)
         if ln is None:
             return x
         if r.random() < 0.7:
             ln = E("bin", U256, op="Mod", a=ln, b=E("const", U256, v=m + 1))
-        return E("slice", ("bytes", m), a=x, start=E("const", U256, v=0) if r.random() < 0.6 else
+        return E("slice", (self.bkind, m), a=x, start=E("const", U256, v=0) if r.random() < 0.6 else
                  E("bin", U256, op="Mod", a=self.expr(cx, scope, U256, 1), b=E("const", U256, v=2)), ln=ln)
 
     def expr(self, cx, scope, t, d, nonzero_lit=False):
-        if t[0] == "bytes":
+        if t[0] in BL:
             return self.bytes_expr(cx, scope, t[1], d)
         if t[0] in ("sarr", "darr", "struct"):
             return self.composite_expr(cx, scope, t, d)
@@ -920,7 +930,8 @@ class Gen:
         """slice / concat / equality of Bytes on the arguments, called at the boundaries (exact end, one past the end, empty)"""
         r = self.r
         n = r.choice([1, 5, 31, 32, 33, 40, 64, 65])
-        bt = ("bytes", n)
+        bk = r.choice(["bytes", "bytes", "string"]) if "strings" in self.feat else "bytes"
+        bt = (bk, n)
         kind = r.choice(["slice", "slice", "slice_lit", "concat", "eq"])
         a0 = E("var", bt, name="a0", id=0)
         if kind == "slice":
@@ -928,17 +939,18 @@ class Gen:
                     [S("return", e=E("slice", bt, a=a0, start=E("var", U256, name="a1", id=1), ln=E("var", U256, name="a2", id=2)))], True)
         elif kind == "slice_lit":
             ln = r.randrange(1, n + 1)
-            f = Fun(f"p{idx}", [("a0", bt), ("a1", U256)], ("bytes", ln),
-                    [S("return", e=E("slice", ("bytes", ln), a=a0, start=E("var", U256, name="a1", id=1), ln=E("const", U256, v=ln)))], True)
+            f = Fun(f"p{idx}", [("a0", bt), ("a1", U256)], (bk, ln),
+                    [S("return", e=E("slice", (bk, ln), a=a0, start=E("var", U256, name="a1", id=1), ln=E("const", U256, v=ln)))], True)
             f.lit_len = ln
         elif kind == "concat":
             m = r.choice([1, 2, 31, 32, 33])
-            f = Fun(f"p{idx}", [("a0", bt), ("a1", ("bytes", m))], ("bytes", n + m),
-                    [S("return", e=E("concat", ("bytes", n + m), a=a0, b=E("var", ("bytes", m), name="a1", id=1)))], True)
+            f = Fun(f"p{idx}", [("a0", bt), ("a1", (bk, m))], (bk, n + m),
+                    [S("return", e=E("concat", (bk, n + m), a=a0, b=E("var", (bk, m), name="a1", id=1)))], True)
         else:
             f = Fun(f"p{idx}", [("a0", bt), ("a1", bt)], BOOL,
                     [S("return", e=E("cmp", BOOL, op=r.choice(["Eq", "Ne"]), a=a0, b=E("var", bt, name="a1", id=1)))], True)
         f.bprobe = (kind, n)
+        f.bkind = bk
         return f
 
     def bytes_probe_calls(self, f):
@@ -946,7 +958,7 @@ class Gen:
         kind, n = f.bprobe
 
         def rb(k):
-            return bytes(r.randrange(256) for _ in range(k))
+            return self.rand_bytes(k, getattr(f, "bkind", "bytes"))
         out = []
         if kind == "slice":
             for ln_a in sorted({0, 1, n, max(n - 1, 0), min(32, n), min(33, n)}):
@@ -969,7 +981,7 @@ class Gen:
                         out.append([rb(la), rb(lb)])
         else:
             a = rb(n)
-            out += [[a, a], [a, a[:-1]], [a[:-1] + bytes([a[-1] ^ 1]), a], [b"", b""], [rb(min(n, 33)), rb(min(n, 33))]]
+            out += [[a, a], [a, a[:-1]], [a[:-1] + (b"#" if a[-1:] != b"#" else b"$"), a], [b"", b""], [rb(min(n, 33)), rb(min(n, 33))]]
         r.shuffle(out)
         return out[:6]
 
@@ -1194,8 +1206,9 @@ class Gen:
                 p.structs.append(st)
                 self.comp_types.append(st)
         self.bytes_types = []
+        self.bkind = "string" if ("strings" in self.feat and r.random() < 0.35) else "bytes"
         if "bytes" in self.feat and r.random() < 0.45:
-            self.bytes_types = sorted({("bytes", r.choice([1, 3, 8, 31, 32, 33, 40, 64, 70])) for _ in range(r.randrange(1, 3))})
+            self.bytes_types = sorted({(self.bkind, r.choice([1, 3, 8, 31, 32, 33, 40, 64, 70])) for _ in range(r.randrange(1, 3))})
         nev = r.randrange(1, 3)
         for i in range(nev):
             if i == 0:
@@ -1265,11 +1278,11 @@ class Gen:
         return v % W
 
     def arg_tree(self, t):
-        if t[0] == "bytes":
+        if t[0] in BL:
             r = self.r
             ln = r.choice([0, 1, 2, 5, 31, 32, 33, t[1], t[1], t[1] + (1 if r.random() < 0.15 else 0)])
             ln = min(ln, t[1] + 1)
-            return bytes(r.randrange(256) for _ in range(ln))
+            return self.rand_bytes(ln, t[0])
         if t[0] in ("int", "bool", "addr"):
             w = self.arg_word(t)
             if t[0] == "bool":
